@@ -9,6 +9,7 @@ import (
 	"github.com/cilium/statedb"
 
 	"verifharness/dbsim"
+	"verifharness/hookctl"
 	"verifharness/vkit"
 )
 
@@ -23,7 +24,20 @@ var opts = dbsim.Opts{Tables: 2, Txns: 40, MaxOps: 8, ProbesPerIndex: 4, AbortPc
 func TestVerif_Snapshots(t *testing.T) {
 	r := vkit.Start(t, "C01", "snapshots", "exploration", rule)
 	r.Require("frozen_rechecks", "commits", "aborts")
-	dbsim.BubbleCases(t, r, vkit.N(1200, 60000), opts, func(s *dbsim.Sim) bool { return s.FrozenChecks() > 0 && s.Commits() > 1 })
+	ctl := hookctl.Install(vkit.Seed())
+	defer ctl.Uninstall()
+	var monitors sync.Map
+	ctl.OnPoint(func(point, handle string) {
+		if f, ok := monitors.Load(handle); ok {
+			f.(func(string, string))(point, handle)
+		}
+	})
+	o := opts
+	o.OnSim = func(s *dbsim.Sim) func() {
+		monitors.Store(s.Handle, s.RegistrationMonitor(ctl)) // table registrations run into some of the commits
+		return func() { monitors.Delete(s.Handle) }
+	}
+	dbsim.BubbleCases(t, r, vkit.N(1200, 60000), o, func(s *dbsim.Sim) bool { return s.FrozenChecks() > 0 && s.Commits() > 1 })
 	r.Finish()
 }
 
